@@ -1,0 +1,15 @@
+//go:build verif
+
+package proxy
+
+import "sync/atomic"
+
+// vfYieldHook, when set by the verification harness, is called at named schedule points inside windows that cannot be
+// reached from the stream boundary (e.g. between releasing and re-taking a lock).
+var vfYieldHook atomic.Pointer[func(point string)]
+
+func vfYield(point string) {
+	if h := vfYieldHook.Load(); h != nil {
+		(*h)(point)
+	}
+}
